@@ -17,7 +17,7 @@ Fin == /\ phase = "parse" /\ i = Len(spec)
        /\ st' = Finalize(st, size) /\ phase' = "done" /\ UNCHANGED <<spec, size, i>>
 Next == (\E t \in Tokens : AddPart(t)) \/ Start \/ Step \/ Fin
 InvC17 == phase = "done" =>
-  /\ st = Parse(spec, size)
+  /\ st = SplitParse(spec, size)
   /\ C17arith(spec, size, IF st.rejected THEN "exc" ELSE "ok", st.parts) = {}
   /\ (~st.rejected => \A k \in 1..Len(st.parts) : st.parts[k] >= 0)
 Emit == phase = "done" => PrintT("CASE " \o ToJson([spec |-> spec, size |-> size]))
